@@ -1,4 +1,4 @@
-SPECIFICATION WSpec
+SPECIFICATION FSpec
 CONSTANTS
   Days = {1, 2, 3}
   TimedDays = {1, 2}
@@ -6,4 +6,5 @@ CONSTANTS
   Hours = {6, 12}
   MaxQ = 4
 INVARIANT HistoryIndependent
+CONSTRAINT Emit
 CHECK_DEADLOCK FALSE
